@@ -234,10 +234,7 @@ func oracleC01(p *sim.Plan, out *sim.Outcome) []sim.Violation {
 		}
 		q := model.Span{Inv: o.Inv, Resp: o.Resp}
 		if o.Op.K == "publish" && (o.Op.QoS == 0 || o.Resp < 0) {
-			q.Resp = -1
-			if e, ok := ends[o.Phase]; ok {
-				q.Resp = e
-			}
+			q.Resp = effResp(h, o, ends)
 		}
 		pubs[string(sim.PayloadOf(o.Op))] = &pubInfo{op: o, q: q, actor: o.Op.C, seq: seqOf[o.Op.C]}
 		// C01.ack
